@@ -348,29 +348,6 @@ uses (normalised Pauli, Gell-Mann, their tensor products and random rotations of
 `√3`, so the kernel-checked instance below is the one-dimensional one over `ℂ`). -/
 section examples
 
-/-- the basis `{(1)}` of the one-dimensional system -/
-def basis1 : Basis ℂ 1 := Vec.ofFn fun _ => Mat.one
-
-theorem Bm_basis1 (a : Fin (1 * 1)) : Bm basis1 a = 1 := by
-  simp [Bm, basis1, Vec.get_ofFn]
-
-theorem onh0_basis1 : ONH0 basis1 ⟨0, by decide⟩ (1 : ℂ) where
-  herm a := by simp [Bm_basis1]
-  orth a b := by
-    have : a = b := by apply Fin.ext; have := a.isLt; have := b.isLt; omega
-    simp [Bm_basis1, this]
-  b0 := by simp [Bm_basis1]
-  z0 := rfl
-  snorm := by simp
-
-theorem complete_basis1 : Complete basis1 := by
-  intro X
-  ext i j
-  have hi : i = 0 := Subsingleton.elim i 0
-  have hj : j = 0 := Subsingleton.elim j 0
-  subst hi; subst hj
-  simp [Bm_basis1, Matrix.trace, Matrix.sum_apply, Matrix.smul_apply]
-
 example : (ii : ℂ) * ii = -1 := Complex.I_mul_I
 
 /-- the jump operator `c = (2)` of the one-dimensional system -/
